@@ -108,13 +108,13 @@ func (w *c15World) line(c *Ctx, in string) {
 				panic(err)
 			}
 			for i := 0; i < 200; i++ {
-				if cn, err := net.DialTimeout("tcp", fmt.Sprintf("127.0.0.1:%d", w.port), 50*time.Millisecond); err == nil {
+				if cn, err := net.DialTimeout("tcp", fmt.Sprintf("127.0.0.1:%d", w.port), ms(50)); err == nil {
 					cn.Close()
 					break
 				}
-				time.Sleep(5 * time.Millisecond)
+				time.Sleep(ms(5))
 			}
-			time.Sleep(20 * time.Millisecond)
+			time.Sleep(ms(20))
 		}
 		w.a.JobQueue = nil
 		w.seen = 0
@@ -132,10 +132,10 @@ func (w *c15World) line(c *Ctx, in string) {
 		for _, ch := range strings.Split(parts[1], ",") {
 			if b := unhx(ch); len(b) > 0 {
 				cn.Write(b)
-				time.Sleep(2 * time.Millisecond)
+				time.Sleep(ms(2))
 			}
 		}
-		got := w.recvFor(40 * time.Millisecond)
+		got := w.recvFor(ms(40))
 		job := "-"
 		w.sock = 0
 		for _, j := range w.newJobs() {
@@ -149,14 +149,14 @@ func (w *c15World) line(c *Ctx, in string) {
 		ok, _ := strconv.Atoi(parts[1])
 		ec, _ := strconv.Atoi(parts[2])
 		w.dispatch(agent.COMMAND_SOCKET, body(fI(agent.SOCKET_COMMAND_CONNECT), fI(uint32(ok)), fI(uint32(w.sock)), fI(uint32(ec))))
-		got := w.recvFor(30 * time.Millisecond)
+		got := w.recvFor(ms(30))
 		c.Emit("%s => recv=%s clients=%d", in, hx(got), len(w.a.SocksCli))
 	case "clientwrite": // clientwrite <chunk,chunk,…>
 		for _, ch := range strings.Split(parts[1], ",") {
 			w.conn.Write(unhx(ch))
-			time.Sleep(2 * time.Millisecond)
+			time.Sleep(ms(2))
 		}
-		time.Sleep(25 * time.Millisecond)
+		time.Sleep(ms(25))
 		var all []byte
 		sameSock, n := true, 0
 		for _, j := range w.newJobs() {
@@ -171,16 +171,16 @@ func (w *c15World) line(c *Ctx, in string) {
 		c.Emit("%s => tasks=%d data=%s samesock=%v", in, n, hx(all), sameSock)
 	case "agentread": // agentread <data>: SOCKET_COMMAND_READ from the agent for this socket
 		w.dispatch(agent.COMMAND_SOCKET, body(fI(agent.SOCKET_COMMAND_READ), fI(uint32(w.sock)), fI(agent.SOCKET_TYPE_REVERSE_PROXY), fI(1), fY(unhx(parts[1]))))
-		c.Emit("%s => recv=%s", in, hx(w.recvFor(30*time.Millisecond)))
+		c.Emit("%s => recv=%s", in, hx(w.recvFor(ms(30))))
 	case "agentclose":
 		w.dispatch(agent.COMMAND_SOCKET, body(fI(agent.SOCKET_COMMAND_CLOSE), fI(uint32(w.sock)), fI(agent.SOCKET_TYPE_REVERSE_PROXY)))
-		w.conn.SetReadDeadline(time.Now().Add(40 * time.Millisecond))
+		w.conn.SetReadDeadline(time.Now().Add(ms(40)))
 		_, err := w.conn.Read(make([]byte, 1))
 		closed := err != nil && !strings.Contains(err.Error(), "timeout")
 		c.Emit("%s => closed=%v clients=%d", in, closed, len(w.a.SocksCli))
 	case "clientclose":
 		w.conn.Close()
-		time.Sleep(30 * time.Millisecond)
+		time.Sleep(ms(30))
 		cl := 0
 		for _, j := range w.newJobs() {
 			if jobStr(j) == "close" {
@@ -205,7 +205,7 @@ func (w *c15World) line(c *Ctx, in string) {
 			}
 			return "ok"
 		})
-		time.Sleep(5 * time.Millisecond)
+		time.Sleep(ms(5))
 		lock := "free"
 		if w.b.SocksSvrMtx.TryLock() {
 			w.b.SocksSvrMtx.Unlock()
